@@ -220,9 +220,16 @@ def replay_histories(hists):
 
 def run(tier, hists_override=None):
     rep = common.Report("C07", tier)
-    cfg = "Lifecycle_%s.cfg" % tier
+    # every history of up to two operations is enumerated by TLC (both tiers); the thorough tier replays them all and adds
+    # histories of three operations sampled by simulation of the same machine (128^3 would be two million)
+    cfg = "Lifecycle_quick.cfg"
     design = common.run_tlc("Lifecycle", cfg)
     hists = design.tagged("HIST")
+    if tier == "thorough":
+        sim = common.run_tlc("Lifecycle", "Lifecycle_thorough.cfg", workers=1,
+                             extra=["-simulate", "num=4000", "-depth", "4", "-seed", str(common.seed() + 7)])
+        hists = hists + [h for h in sim.tagged("HIST") if len(h) == 3]
+        design.generated += sim.generated
     seen = set()
     uniq = []
     for h in hists:
@@ -233,7 +240,7 @@ def run(tier, hists_override=None):
     hists = sorted(uniq, key=len)
     total = len(hists)
     exhaustive = True
-    cap = 2600 if tier == "quick" else 14000
+    cap = 2600 if tier == "quick" else 22000
     if total > cap:
         rnd = random.Random(common.seed())
         # every history of at most one operation, a seeded sample of the longer ones
@@ -252,10 +259,28 @@ def run(tier, hists_override=None):
     recs = replay_histories(hists)
     slim = [{k: r[k] for k in ("hid", "probe", "digest", "outcome", "exc")} | {"hlen": len(r["hist"])} for r in recs]
     work = common.scratch("verif.c07.")
-    tf = os.path.join(work, "trace.json")
-    json.dump(slim, open(tf, "w"))
-    val = common.run_tlc("LifecycleTrace", "LifecycleTrace.cfg", env={"TRACE_FILE": tf})
-    verdicts = val.plain("VERDICT")
+    # validated in chunks (each with the reference records in front): TLC's time per record grows with the trace length
+    ref = [r for r in slim if r["hlen"] == 0]
+    rest = [(i, r) for i, r in enumerate(slim) if r["hlen"] != 0]
+
+    class val:
+        distinct = 0
+        generated = 0
+    verdicts = []
+    CH = 20000
+    for off in range(0, max(1, len(rest)), CH):
+        part = rest[off:off + CH]
+        tf = os.path.join(work, "trace.json")
+        json.dump(ref + [r for _, r in part], open(tf, "w"))
+        v = common.run_tlc("LifecycleTrace", "LifecycleTrace.cfg", env={"TRACE_FILE": tf})
+        val.distinct += v.distinct - (2 * len(ref) if off else 0)
+        val.generated += v.generated - (2 * len(ref) if off else 0)
+        for t, idx, clause in v.plain("VERDICT"):
+            if idx <= len(ref):
+                if not off:
+                    verdicts.append((t, [i for i, r in enumerate(slim) if r["hlen"] == 0][idx - 1] + 1, clause))
+            else:
+                verdicts.append((t, part[idx - len(ref) - 1][0] + 1, clause))
     if val.distinct != 2 * len(slim):
         raise common.MachineryError("trace validation visited %d states, expected %d" % (val.distinct, 2 * len(slim)))
     fresh = {r["probe"]: r for r in recs if not r["hist"]}
